@@ -88,25 +88,70 @@ def build_world(desc, reset=True):
     return world
 
 
+def _collect_module_state():
+    """Every module-level dict / list / set of the library (caches, tables): (module, name) -> import-time deep copy.
+    The registries are handled separately (their elements are live objects)."""
+    import copy
+    import importlib
+    import pkgutil
+    out = {}
+    for m in pkgutil.walk_packages(pygaps.__path__, "pygaps."):
+        if m.name.startswith(("pygaps.cli", "pygaps.graphing")):
+            continue
+        try:
+            mod = importlib.import_module(m.name)
+        except Exception:  # noqa - optional dependencies
+            continue
+        for name, val in vars(mod).items():
+            if name.startswith("__") or name in ("ADSORBATE_LIST", "MATERIAL_LIST"):
+                continue
+            if isinstance(val, (dict, list, set)) and not any(val is o for (_, _), (o, _) in out.items()):
+                try:
+                    out[(m.name, name)] = (val, copy.deepcopy(val))
+                except Exception:  # noqa - not copyable: leave alone
+                    pass
+    return out
+
+
+_MODULE_STATE = _collect_module_state()
+
+
+def _set_content(obj, content):
+    if isinstance(obj, dict):
+        obj.clear()
+        obj.update(content)
+    elif isinstance(obj, list):
+        obj[:] = content
+    else:
+        obj.clear()
+        obj.update(content)
+
+
+def reset_module_state():
+    import copy
+    for (obj, snap) in _MODULE_STATE.values():
+        _set_content(obj, copy.deepcopy(snap))
+
+
 def clear_caches():
-    """Make the 'fresh' run really fresh: loaded kernels / standard isotherms are dropped and the registry is filled
-    with brand-new Adsorbate objects (no CoolProp state or anything else cached on them)."""
+    """Make the 'fresh' run really fresh: every module-level container of the library (loaded kernels, standard
+    isotherms, series coefficients, tables) is put back to its import-time content and the registry is filled with
+    brand-new Adsorbate objects (no CoolProp state or anything else cached on them). Returns what the history world
+    needs to get its own process-global state back."""
     import copy
     from pygaps.core.adsorbate import Adsorbate
-    saved = (dict(psd_kernel._LOADED), dict(models_thickness._LOADED))
-    psd_kernel._LOADED.clear()
-    models_thickness._LOADED.clear()
+    saved = {key: (dict(obj) if isinstance(obj, dict) else list(obj) if isinstance(obj, list) else set(obj))
+             for key, (obj, _) in _MODULE_STATE.items()}
+    reset_module_state()
     ADSORBATE_LIST[:] = [Adsorbate(**copy.deepcopy(a.to_dict())) for a in K._ADS_SNAPSHOT]
     return saved
 
 
 def restore_registry(saved):
-    """Give the history world its own process-global state back (registry objects and module-level caches)."""
+    """Give the history world its own process-global state back (registry objects and module-level containers)."""
     ADSORBATE_LIST[:] = K._ADS_SNAPSHOT
-    psd_kernel._LOADED.clear()
-    psd_kernel._LOADED.update(saved[0])
-    models_thickness._LOADED.clear()
-    models_thickness._LOADED.update(saved[1])
+    for key, content in saved.items():
+        _set_content(_MODULE_STATE[key][0], content)
 
 
 def fingerprint(world):
@@ -204,7 +249,8 @@ def run_op(world, op):
         return pgc.psd_mesoporous(iso, psd_model=op["model"], pore_geometry="cylinder", branch=op["branch"],
                                   thickness_model=op["thickness"])
     if name == "psd_microporous":
-        return pgc.psd_microporous(iso, psd_model="HK", pore_geometry="slit", branch=op["branch"], p_limits=(0.0, 0.1))
+        return pgc.psd_microporous(iso, psd_model=op.get("model", "HK"), pore_geometry=op.get("geometry", "slit"),
+                                   branch=op["branch"], p_limits=(0.0, 0.02 if op.get("geometry", "slit") != "slit" else 0.1))
     if name == "psd_dft":
         return pgc.psd_dft(iso, branch=op["branch"], bspline_order=op.get("order", 2))
     if name == "initial_henry_slope":
@@ -323,7 +369,11 @@ def _op(focus=None):
                                     st.sampled_from(["Harkins/Jura", "Halsey", "SiO2 Jaroniec/Kruk/Olivier",
                                                      "carbon black Kruk/Jaroniec/Gadkaree", "SiO2 Jaroniec/Kruk/Olivier",
                                                      "carbon black Kruk/Jaroniec/Gadkaree"])),
-        "psd_microporous": simple("psd_microporous"),
+        "psd_microporous": st.builds(lambda i, b, m, g: {"op": "psd_microporous", "iso": i, "branch": b, "model": m, "geometry": g},
+                                     iso, br, st.sampled_from(["HK", "HK", "HK-CY", "RY", "RY-CY"]),
+                                     st.sampled_from(["slit", "slit", "slit", "cylinder", "sphere"])),
+        "psd_micro_curved": st.builds(lambda i, m, g: {"op": "psd_microporous", "iso": i, "branch": "ads", "model": m, "geometry": g},
+                                      iso, st.sampled_from(["HK", "HK-CY", "RY", "RY-CY"]), st.sampled_from(["cylinder", "sphere"])),
         "psd_dft": st.builds(lambda b, o: {"op": "psd_dft", "iso": "A", "branch": b, "order": o}, br, st.sampled_from([0, 2])),
         "initial_henry_slope": simple("initial_henry_slope"),
         "initial_henry_virial": st.builds(lambda i: {"op": "initial_henry_virial", "iso": i}, iso),
@@ -343,11 +393,12 @@ def _op(focus=None):
         weights = ["loading_at"] * 4 + ["pressure_at"] * 3 + ["spreading_pressure_at"] * 3 + ["loading_at_units", "pressure", "to_json"]
         return st.sampled_from(weights).flatmap(lambda k: cat[k])
     if focus == "caches":
-        weights = (["t_plot"] * 6 + ["psd_mesoporous"] * 4 + ["adsorbate_props"] * 3 + ["psd_dft", "area_BET", "whittaker",
+        weights = (["t_plot"] * 6 + ["psd_mesoporous"] * 4 + ["adsorbate_props"] * 3 + ["psd_micro_curved"] * 4 + ["psd_dft", "area_BET", "whittaker",
                    "isosteric_enthalpy", "alpha_s", "loading", "pressure", "iast_point_mixed", "model_accessors"])
         return st.sampled_from(weights).flatmap(lambda k: cat[k])
     weights = (["loading_at"] * 5 + ["pressure_at"] * 4 + ["spreading_pressure_at"] * 5 + ["pressure", "loading"] * 2 +
-               ["loading_at_units"] * 2 + [k for k in cat if k not in ("loading_at", "pressure_at", "spreading_pressure_at")])
+               ["loading_at_units"] * 2 + [k for k in cat if k not in ("loading_at", "pressure_at", "spreading_pressure_at",
+                                                                        "psd_micro_curved")])
     return st.sampled_from(weights).flatmap(lambda k: cat[k])
 
 
@@ -364,8 +415,7 @@ def _argclass(op):
 
 
 def check_history(desc, ctx):
-    psd_kernel._LOADED.clear()
-    models_thickness._LOADED.clear()
+    reset_module_state()
     world = build_world(desc)
     fp0 = fingerprint(world)
     fresh_fp = None
@@ -410,7 +460,7 @@ def check_history(desc, ctx):
             analysis_after_interp = True
     shared_state_ops = [o for o in desc["ops"] if o["op"] in ("adsorbate_props", "psd_mesoporous", "whittaker", "isosteric_enthalpy",
                                                                "area_BET", "t_plot", "alpha_s", "psd_dft", "psd_microporous")]
-    shared_keys = {(o["op"], o.get("iso"), o.get("thickness"), o.get("model")) for o in shared_state_ops}
+    shared_keys = {(o["op"], o.get("iso"), o.get("thickness"), o.get("model"), o.get("geometry")) for o in shared_state_ops}
     if cache_key_changes or analysis_after_interp or len(shared_keys) >= 2:
         ctx.nt([desc["units"], [_argclass(o) for o in desc["ops"]]], desc)
 
